@@ -77,8 +77,22 @@ impl MachineState {
 
             parser.add_lines_read(prior_num_lines_read);
 
+            // a lexical error leaves the reader inside the offending clause (a parser
+            // error is only found after the whole clause has been consumed): skip the
+            // rest of that clause, so that the next read starts behind its end token.
+            let tokens = match read_tokens(&mut parser.lexer) {
+                Ok(tokens) => tokens,
+                Err(err) => {
+                    if !err.is_unexpected_eof() {
+                        parser.lexer.skip_to_end_token();
+                    }
+
+                    return Err(error_after_read_term(err, prior_num_lines_read, &parser));
+                }
+            };
+
             let term = parser
-                .read_term(&op_dir, Tokens::Default)
+                .read_term(&op_dir, Tokens::Provided(tokens))
                 .map_err(|err| error_after_read_term(err, prior_num_lines_read, &parser))?; // CompilationError::from
 
             (term, parser.lines_read() - prior_num_lines_read)
